@@ -14,6 +14,9 @@ def ee(q):
     return sum(10 ** (-(ord(c) - 33) / 10) for c in q)
 
 
+MAXN_CORNERS = [(n_, L_) for L_ in range(2, 121) for n_ in range(1, L_) if (n_ / L_) * L_ != n_]
+
+
 def gen_filter_case(ctx):
     rng = ctx.rng
     nreads = rng.randint(3, 8)
@@ -38,7 +41,18 @@ def gen_filter_case(ctx):
     if rng.random() < 0.5:
         r = rng.choice(reads)
         nn = r[1].lower().count("n")
-        argv += ["--max-n", rng.choice([str(nn), str(max(0, nn - 1)), "0", repr(nn / len(r[1])) if r[1] else "0.5", "0.2", "0.5"])]
+        if rng.random() < 0.3:
+            # a fraction that a read meets exactly (kept: the filter asks for *more* N's), at a length where the double (n/L)*L is not n
+            n_, L_ = rng.choice(MAXN_CORNERS)
+            for d_ in (0, 1):
+                m_ = min(n_ + d_, L_)
+                body = list("N" * m_ + pipe.rs(rng, L_ - m_))
+                rng.shuffle(body)
+                s_ = "".join(body)
+                reads.append((f"b{len(reads)} 1:N:0:1", s_, "".join(chr(33 + rng.choice([30, 40])) for _ in s_)))
+            argv += ["--max-n", repr(n_ / L_)]
+        else:
+            argv += ["--max-n", rng.choice([str(nn), str(max(0, nn - 1)), "0", repr(nn / len(r[1])) if r[1] else "0.5", "0.2", "0.5"])]
     if rng.random() < 0.5:
         r = rng.choice(reads)
         argv += ["--max-ee", rng.choice([repr(ee(r[2])), repr(ee(r[2]) * 0.999), "0.5", "1", "3", "0", "0.0"])]
